@@ -8,6 +8,14 @@ OUT=seeded/MATRIX_$R.txt
 for d in seeded/*-$R/; do
   n=$(basename $d)
   id=${n%%-*}
+  case $n in
+    C07-m2) id="C10";;
+    C07-m3) id="C10 C13";;
+    C01-m5) id="C07";;
+    C04-m5) id="C03";;
+    C10-m5) id="C02";;
+    C09-m5) continue;;
+  esac
   python3 lib/mutants.py run $n $id 2>&1 | grep -v KNOWN | cut -c1-240 >> $OUT.tmp
 done
 mv $OUT.tmp $OUT
